@@ -895,6 +895,7 @@ def check_C15(tr):
     b = tr.cfg.get("blur")
     took_part = {}     # (app, mailbox) -> sides that touched the current incarnation (ghost, from the history)
     last_mood = {}     # (app, mailbox, side) -> the mood of that side's LAST close answered `closed` (ghost, from the history)
+    arrived = {}       # (app, mailbox, side) -> when that side first took part in the current incarnation (ghost)
     for st in tr.steps:
         if st.pre is None or st.post is None or tr.has_crash:
             continue
@@ -921,7 +922,10 @@ def check_C15(tr):
                         took_part[(b0[0], tgt)] = set()
                         for k in [k for k in last_mood if k[:2] == (b0[0], tgt)]:
                             del last_mood[k]
+                        for k in [k for k in arrived if k[:2] == (b0[0], tgt)]:
+                            del arrived[k]
                     took_part.setdefault((b0[0], tgt), set()).add(b0[1])
+                    arrived.setdefault((b0[0], tgt, b0[1]), op["t"])
                     if t0 == "close" and e0 is None and st.frames(c0, "closed") and \
                             (m0.get("mood") is None or isinstance(m0.get("mood"), str)):
                         last_mood[(b0[0], tgt, b0[1])] = m0.get("mood")
@@ -959,7 +963,9 @@ def check_C15(tr):
             if (r[0], r[1]) not in st.post.mailbox_ids():
                 sides = [s for s in st.post_sides_at_delete(r[1])]
                 # the mood of a side is what its LAST answered close said (the table may have lost a repeated close's mood)
-                sides = [tuple(list(s[:4]) + [last_mood.get((r[0], r[1], s[2]), s[4])]) for s in sides]
+                # ... and its arrival is when it FIRST took part in this incarnation (a row replaced later must not move it)
+                sides = [tuple(list(s[:3]) + [arrived.get((r[0], r[1], s[2]), s[3]), last_mood.get((r[0], r[1], s[2]), s[4])])
+                         for s in sides]
                 started, waiting, total = _times(sides, when, b, 3)
                 want_mb.append((r[0], r[3], started, total, waiting, classify_mailbox(sides, pruned)))
         if sorted(want_np, key=repr) != sorted(add_np, key=repr):
@@ -967,6 +973,8 @@ def check_C15(tr):
                                {"expected": want_np, "written": add_np}))
         for k in [k for k in last_mood if (k[0], k[1]) not in st.post.mailbox_ids()]:
             del last_mood[k]
+        for k in [k for k in arrived if (k[0], k[1]) not in st.post.mailbox_ids()]:
+            del arrived[k]
         if sorted(want_mb, key=repr) != sorted(add_mb, key=repr):
             out.append(Finding("C15", "exactly one correctly classified record per retired mailbox", st.i,
                                {"expected": want_mb, "written": add_mb}))
